@@ -21,6 +21,18 @@ def oneAtATime {σ τ ω : Type} (m : Machine σ τ ω) : Disk → List τ → L
     | none => oneAtATime m disk ts
     | some o => (t, o) :: oneAtATime m (writeFile disk (m.gfile t o)) ts
 
+/-! ## Run histories (C07): what a run leaves in the directory -/
+
+/-- `-type=A,B` / `-sep`: one file per type -/
+def writtenSep {σ τ ω : Type} (m : Machine σ τ ω) (outs : List (τ × ω)) : Disk := outs.map (fun p => m.gfile p.1 p.2)
+
+/-- `-file=` / `-type=*`: ONE file holds the declarations of all types -/
+def writtenAio {σ τ ω : Type} (m : Machine σ τ ω) (aioName : String) (outs : List (τ × ω)) : Disk :=
+  if outs.isEmpty then [] else [{ name := aioName, defs := outs.flatMap (fun p => (m.gfile p.1 p.2).defs) }]
+
+/-- the directory after the writes (rename(2) replaces a file of the same name) -/
+def afterRun (disk written : Disk) : Disk := written.foldl writeFile disk
+
 /-! ## Classification of the generator state (checked against `Facts.genStateFields`) -/
 
 inductive Class where
